@@ -46,7 +46,7 @@ SEQ_BASE = dict(AeadC="1", KdfC="1", ExpMenu='"few"', SweepFrom="0", SweepTo="0"
 
 SETUP_BASE = dict(KemSet="{32}", KdfSet="{1}", AeadSet="{1, 65535}", ModeSet="{0, 1, 2, 3}", Vals='"small"',
                   Perturb='{"none", "info", "psk", "pskid", "mode", "kdf", "aead", "skr", "enc", "pks", "shift"}',
-                  Impost="FALSE", ShotsOnly="FALSE", ShotDl='"tamper"', Twin="FALSE", BadPkR='"none"', Shape='"all"', Emit="FALSE", EmitWiring="FALSE", Ordered="TRUE", MaxSeals="0", MaxOpens="0", MaxExports="0", MaxShots="0",
+                  Impost="FALSE", ShotsOnly="FALSE", ShotDl='"tamper"', Twin="FALSE", BadPkR='"none"', Shape='"all"', SweepMax="0", Emit="FALSE", EmitWiring="FALSE", Ordered="TRUE", MaxSeals="0", MaxOpens="0", MaxExports="0", MaxShots="0",
                   RecordHist="FALSE", HistLen="0", FormMenu='{"alloc"}', OvfFirstInOpen="TRUE")
 
 
@@ -184,6 +184,19 @@ def c05(chk, tier):
             if batch.n == 0:
                 raise ToolError("no open transition generated")
             batch.run()
+        # a message sealed at position 0 must not open at any position 2^j (every single bit of the counter matters)
+        for aead in (1, 2, 3):
+            batch = TransitionBatch(ses, label="cross-position aead=%d" % aead)
+
+            def onc(tr, aead=aead, batch=batch):
+                l = tr["last"]
+                if l["op"] == "open":
+                    batch.add(tr)
+                    chk.case(("x", aead, l["plain"]["d"]["k"], tuple(l["pre"]["seq"]), l["form"], l["kind"], l["err"]))
+            generate(chk, "MC_Seq", "MC_Seq.cfg", "gen_cross_%d" % aead,
+                     seq_over(AeadC=aead, Starts='"cross"', Menu='"inorder"', Emit=True, MaxSeals=1, MaxOpens=1),
+                     invariants=[], on_value=onc, workers=4)
+            batch.run()
         # whole behaviours from position 0 through the public API only (random walks of the model)
         rnd = random.Random(seed())
         for aead in (1, 2, 3):
@@ -224,9 +237,9 @@ def c06(chk, tier):
     ses = Session(chk)
     accepted_controls = [0]
     try:
-        variants = [0, 2, 5, 6] if thorough else [2, 6]        # (pt, aad) lengths (17,0),(32,16) / (16,17),(33,1) ...
+        variants = [0, 2, 5, 6, 12] if thorough else [2, 6]   # (pt, aad) lengths (17,0),(32,16) / (16,17),(33,1) / (5,70000),(300,65537)
         for aead in (1, 2, 3):
-            for lv in (variants if (thorough or aead == 1) else variants[:1]):
+            for lv in (variants if thorough else (variants[:2] if aead == 1 else [variants[0]]) + ([12] if aead == rot([1, 2, 3], 0) else [])):
                 batch = TransitionBatch(ses, label="tamper aead=%d lenvar=%d" % (aead, lv))
 
                 def on(tr, aead=aead, lv=lv, batch=batch):
@@ -384,6 +397,15 @@ def c02(chk, tier):
                                          Emit=True, MaxShots=2, FormMenu='{"alloc", "detached"}'),
                               exact_tags=ALL, casekey=key,
                               want=lambda last, tr: last["op"].startswith("single_shot"))
+        # every length 0..N of info, psk, psk_id (one at a time), one suite: a value cut at an internal buffer size shows
+        skem = rot(list(KEMS), 1)
+        setup_transitions(chk, ses, "gen_exact_sweep",
+                          setup_over(KemSet="{%d}" % skem, KdfSet=kset([rot([1, 2, 3], 2)]), AeadSet=kset([rot([1, 2, 3], 1)]),
+                                     ModeSet="{0, 3}", Vals='"leaf"', Shape='"sweep"', SweepMax=300 if thorough else 140,
+                                     Perturb="{}", Emit=True, MaxExports=1),
+                          exact_tags=ALL, casekey=key,
+                          want=lambda last, tr: last["op"] == "setup_s" or (last["op"] == "export" and last["plain"]["len"] == 32
+                                                                           and not last["bytes"]["exporter_ctx"]))
         # impl -> spec: random sessions; the specification's predicted outputs are evaluated by the oracle
         traces(chk, "session", 10 if thorough else 1, "random sessions (exact)", exact_tags=ALL,
                nsessions=8 if thorough else 4, nsteps=30, long=thorough)
@@ -395,6 +417,11 @@ def c02(chk, tier):
                        "every returned byte must equal the oracle's evaluation of the specification's term; "
                        "distinct = distinct (suite, mode, call, form, context, outcome, arguments)")
     chk.cov["exhaustive"] = True
+
+
+def blen_of(chunks):
+    from oracle.terms import blen
+    return blen(chunks)
 
 
 def rot(seq, k):
@@ -472,6 +499,8 @@ def c01(chk, tier):
                 batch.run()
         traces(chk, "session", 12 if thorough else 2, "random sessions", nsessions=8 if thorough else 5, nsteps=40,
                long=thorough)
+        traces(chk, "lengths", 3 if thorough else 1, "every plaintext / aad length 0..N in one session",
+               upto=400 if thorough else 300)
     finally:
         ses.close()
     require_outcomes(chk, ['setup_s/ok', 'setup_r/ok', 'seal/ok', 'open/ok', 'open/err/OpenError'])
@@ -481,7 +510,7 @@ def c01(chk, tier):
 
 
 # ------------------------------------------------------------------------------------------- C07
-C07_KINDS = ["none", "info", "psk", "pskid", "mode", "kdf", "aead", "skr", "enc", "pks", "shift"]
+C07_KINDS = ["none", "info", "psk", "pskid", "mode", "kdf", "aead", "skr", "enc", "pks", "shift", "encform"]
 C07_BYTE_KINDS = ["none", "infobits", "pskbits", "pskidbits", "ext"]
 
 
@@ -504,7 +533,8 @@ def c07(chk, tier):
         want = lambda last, tr: last["op"] in ("setup_r", "open", "export")
         for i, kem in enumerate(KEMS if thorough else (rot([32, 16], 0), rot([17, 18, 32, 16], 0))):
             setup_transitions(chk, ses, "gen_bind_%d" % kem,
-                              setup_over(KemSet="{%d}" % kem, KdfSet=kset([rot([1, 2, 3], i)]), AeadSet="{1, 3}",
+                              setup_over(KemSet="{%d}" % kem, KdfSet="{1, 2, 3}" if thorough else kset([rot([1, 2, 3], i)]),
+                                         AeadSet="{1, 3}",
                                          Vals='"small"', Shape='"all"' if thorough else '"one"', Perturb=qset(C07_KINDS),
                                          Emit=True, MaxSeals=2 if thorough else 1, MaxOpens=2 if thorough else 1,
                                          MaxExports=2 if thorough else 1),
@@ -513,7 +543,7 @@ def c07(chk, tier):
             if not thorough and i != 0:
                 continue
             setup_transitions(chk, ses, "gen_bits_%d" % kem,
-                              setup_over(KemSet="{%d}" % kem, KdfSet=kset([rot([1, 2, 3], i + 1)]), AeadSet="{2}",
+                              setup_over(KemSet="{%d}" % kem, KdfSet=kset([rot([1, 2, 3], i + 2)]), AeadSet="{2}",
                                          ModeSet="{0, 3}" if not thorough else "{0, 1, 2, 3}",
                                          Vals='"leaf"', Shape='"one"', Perturb=qset(C07_BYTE_KINDS),
                                          Emit=True, MaxSeals=1, MaxOpens=1, MaxExports=1),
@@ -607,7 +637,7 @@ def c10(chk, tier):
 def c10_kem_level(chk, ses, thorough):
     key = lambda l: ("c10k", l["op"], l["kind"], l["err"], _digest(l["bytes"]))
     stateless_calls(chk, ses, "MC_Kem", "MC_Kem.cfg", "gen_kem_smallorder",
-                    dict(KemSet="{32}", NIkm="0", SmallOrder="TRUE", Emit="TRUE"), ALL, key,
+                    dict(KemSet="{32}", NIkm="0", SmallOrder="TRUE", Emit="TRUE", IkmSweep="0"), ALL, key,
                     want=lambda l: l["op"] in ("encap", "decap"), compare_bytes=False)
 
 
@@ -642,6 +672,9 @@ def c14(chk, tier):
             setup_transitions(chk, ses, "gen_shots_%d" % kem, dict(shots, Emit="TRUE"),
                               want=lambda last, tr: last["op"] in ("single_shot_seal", "single_shot_open"),
                               casekey=tr_key("c14s"))
+        # the allocating open must refuse what has no (ciphertext, tag) split for the in-place open: a tag-only message
+        # with its last bytes removed, over many different tags (see C06)
+        c06_short_sweep(chk, ses, thorough)
     finally:
         ses.close()
     require_outcomes(chk, ['seal/ok', 'open/ok', 'single_shot_seal/ok', 'single_shot_open/ok', 'single_shot_open/err/OpenError', 'single_shot_open/err/DecapError', 'single_shot_seal/err/EncapError'])
@@ -682,6 +715,20 @@ def c11(chk, tier):
                                   MaxSeals=1, MaxOpens=1, MaxExports=1),
                          invariants=[], on_value=on, workers=4)
                 batch.run()
+        # every exporter-context length 0..N (exact), one KDF per run
+        for kdf in ((1, 2, 3) if thorough else (rot([1, 2, 3], 0),)):
+            batch = TransitionBatch(ses, exact_tags={"expand"}, label="exporter-context length sweep kdf=%d" % kdf)
+
+            def onl(tr, batch=batch, kdf=kdf):
+                l = tr["last"]
+                if l["op"] == "export" and l["c"] == "r":
+                    batch.add(tr)
+                    chk.case(("ctxlen", kdf, blen_of(l["bytes"]["exporter_ctx"])))
+            generate(chk, "MC_Seq", "MC_Seq.cfg", "gen_ctxsweep_%d" % kdf,
+                     seq_over(AeadC=2, KdfC=kdf, Starts='"zero"', ExpMenu='"ctxsweep"', SweepFrom=0, SweepTo=300 if thorough else 200,
+                              Emit=True, MaxSeals=0, MaxExports=1),
+                     invariants=[], on_value=onl, workers=4)
+            batch.run()
         if thorough:
             # every L in 0..=65535 once per KDF (and beyond the 2^16 limit)
             for kdf in (1, 2, 3):
@@ -750,7 +797,8 @@ def c03(chk, tier):
         _terms.STATS["firstvalid_retries"] = 0
         for kem in KEMS:
             stateless_calls(chk, ses, "MC_Kem", "MC_Kem.cfg", "gen_kem_%d" % kem,
-                            dict(KemSet="{%d}" % kem, NIkm=str(2000 if thorough else 40), SmallOrder="FALSE", Emit="TRUE"),
+                            dict(KemSet="{%d}" % kem, NIkm=str(2000 if thorough else 40), SmallOrder="FALSE", Emit="TRUE",
+                                 IkmSweep=str(300 if thorough or kem == rot(list(KEMS), 0) else 140)),
                             ALL, key)
         chk.notes["derive_keypair_inputs_that_took_the_rejection_branch"] = _terms.STATS["firstvalid_retries"]
         if _terms.STATS["firstvalid_retries"] < 1:
@@ -913,8 +961,9 @@ def c15_wiring(chk, ses, thorough):
         generate(chk, "MC_Setup", "MC_Setup.cfg", "gen_wiring_%d" % kem,
                  setup_over(KemSet="{%d}" % kem, KdfSet="{1, 2, 3}" if thorough else kset([rot([1, 2, 3], i)]),
                             AeadSet="{1, 2, 3, 65535}" if thorough else kset([rot([1, 2, 3, 65535], i)]),
-                            ModeSet="{1, 3}", Vals='"leaf"', Shape='"all"' if thorough else '"one"', Perturb='{"none"}',
-                            EmitWiring=True),
+                            ModeSet="{1, 3}", Vals='"leaf"',
+                            Shape='"sweep"' if kem == 32 else ('"all"' if thorough else '"one"'),
+                            SweepMax=300 if thorough else 140, Perturb='{"none"}', EmitWiring=True),
                  invariants=[], on_value=got.append, workers=1)
         if not got or "wiring" not in got[0]:
             raise ToolError("no wiring records")
@@ -972,7 +1021,7 @@ def c13(chk, tier):
         for part in ("lengths", "kdf"):
             generate(chk, "MC_Codec", "MC_Codec.cfg", "gen_" + part, codec_over(part), invariants=None, on_value=on, workers=2)
         # key derivation from ikm of any length
-        stateless_calls(chk, ses, "MC_Kem", "MC_Kem.cfg", "gen_ikm", dict(KemSet=kset(KEMS), NIkm="0", SmallOrder="FALSE", Emit="TRUE"),
+        stateless_calls(chk, ses, "MC_Kem", "MC_Kem.cfg", "gen_ikm", dict(KemSet=kset(KEMS), NIkm="0", SmallOrder="FALSE", Emit="TRUE", IkmSweep="0"),
                         ALL, lambda l: ("ikm", l["plain"]["kem"], _digest(l["bytes"])), want=lambda l: l["op"] == "derive_keypair")
         # opening entry points: arbitrary bytes of every length class, both forms, 3 AEADs (raw contexts)
         for aead in (1, 2, 3):
@@ -1117,6 +1166,15 @@ def c16(chk, tier):
             if mode in (2, 3):
                 d_cmd["pk_s"] = {"ref": i_s, "field": "pk"}
             add(d_cmd, "drop_shared_secret")
+    # many more KEM shared secrets (a wipe that depends on the VALUE of the secret needs many values to show)
+    for kem in (32, 16):
+        i_r = len(cmds)
+        add({"op": "derive_keypair", "kem": kem, "ikm": rb(NSK[kem])}, "other")
+        for _ in range((4000 if thorough else 1200) if kem == 32 else (600 if thorough else 150)):
+            i_e = len(cmds)
+            add({"op": "encap", "kem": kem, "pk_r": {"ref": i_r, "field": "pk"}, "rng": rb(NSK[kem])}, "other")
+            add({"op": "drop_shared_secret", "kem": kem, "sk_r": {"ref": i_r, "field": "sk"}, "enc": {"ref": i_e, "field": "enc"}},
+                "drop_shared_secret")
     evs = run_script(cmds)
     # the refinement mapping: purely syntactic (ledger deltas, scan booleans, result kind)
     trace = []
@@ -1182,7 +1240,8 @@ def c17(chk, tier):
         todo = [(f, g) for (f, g) in by]
     else:
         singles = [frozenset([x]) for x in features.ALL_FEATURES]
-        base = [frozenset(), full, frozenset(["alloc", "p256", "x25519"]), frozenset(["std", "p384"])] + singles
+        base = [frozenset(), full, frozenset(["alloc", "p256", "x25519"]), frozenset(["std", "p384"]),
+                frozenset(["p256", "p384"]), frozenset(["x25519", "p521"])] + singles
         allsets = sorted((f for (f, g) in by if not g), key=lambda s: (len(s), sorted(s)))
         extra = [allsets[(seed() * 7 + k * 13) % 64] for k in range(2)]
         todo = [(f, False) for f in dict.fromkeys(base + extra)] + [(full, True), (frozenset(["p521"]), True)]
@@ -1271,6 +1330,15 @@ def c18(chk, tier):
         "Send/Sync of the public types is a compile-time probe; a library that fails it also fails to build the executor"]
     if not c18_static(chk):
         return
+    # the same property in builds WITHOUT alloc/std (the executor needs alloc; code behind cfg(not(alloc)) is only here)
+    from . import features
+    b = features.Builder("C18")
+    try:
+        subsets = [["p256"], ["x25519"], ["x25519", "p384"], ["p521"]] if tier == "thorough" else [rot([["p256"], ["x25519"]], 0)]
+        for fs in subsets:
+            features.concurrency_probe(chk, b, fs)
+    finally:
+        b.cleanup()
     from .execproc import Executor
     combos = [(32, 1, 1, 3), (16, 1, 3, 2), (17, 2, 2, 3), (18, 3, 1, 1), (32, 3, 65535, 2), (16, 2, 2, 0)]
     if not thorough:
